@@ -1,44 +1,47 @@
 #!/usr/bin/env python3
-# Applies behaviour-preserving changes (/verif/benign/<id>/*.diff) to a scratch worktree of /repo and runs the checks of every
-# property that has a function under contract in a touched package: every check must stay exit 0 (no false alarm).
-# usage: tools_benign.py [substr ...]      (needs a clean scratch worktree: created at /tmp/benign-wt and removed afterwards)
-import json,os,re,subprocess,sys
-WT='/tmp/benign-wt'
+# Applies behaviour-preserving changes (/verif/benign/<id>/*.diff, made by sub-agents that were given only the property text) to
+# scratch worktrees of /repo (HEAD) and runs the check of every property that has a function under contract in a touched
+# package: every check must stay exit 0 (no false alarm on a harmless edit). /repo itself is not touched.
+# usage: tools_benign.py [-j N] [substr ...]
+import json,os,re,subprocess,sys,threading,queue
 def sh(*a,**k): return subprocess.run(a,capture_output=True,text=True,**k)
-sh('git','-C','/repo','worktree','remove','--force',WT)
-assert sh('git','-C','/repo','worktree','add','--detach',WT,'HEAD').returncode==0
+args=sys.argv[1:]; J=4
+if args[:1]==['-j']: J=int(args[1]); args=args[2:]
 P=json.load(open('/verif/props.json'))
 def pkg_of_func(f):
     m=re.match(r'(go\.amzn\.com/[^.(]+(?:/[^.(]+)*)\.',f)
     return m.group(1) if m else None
 proppk={q['id']:{pkg_of_func(f) for f in q['functions']} for q in P}
-only=sys.argv[1:]
-rows=[]
-try:
-    for d in sorted(os.listdir('/verif/benign')):
-        for f in sorted(os.listdir('/verif/benign/'+d)):
-            if not f.endswith('.diff'): continue
-            name=d+'/'+f
-            if only and not any(o in name for o in only): continue
+jobs=queue.Queue(); rows=[]; lock=threading.Lock()
+for d in sorted(os.listdir('/verif/benign')):
+    for f in sorted(os.listdir('/verif/benign/'+d)):
+        if f.endswith('.diff') and (not args or any(o in d+'/'+f for o in args)): jobs.put(d+'/'+f)
+def worker(i):
+    WT='/tmp/benign-wt-%d-%d'%(os.getpid(),i)
+    assert sh('git','-C','/repo','worktree','add','--detach',WT,'HEAD').returncode==0
+    try:
+        while True:
+            try: name=jobs.get_nowait()
+            except queue.Empty: return
             diff='/verif/benign/'+name
             files=re.findall(r'^\+\+\+ b/(\S+)',open(diff).read(),re.M)
-            pk=set()
-            for x in files:
-                dirn=os.path.dirname(x)
-                pk.add('go.amzn.com/'+dirn if dirn.startswith('lambda') else 'go.amzn.com/'+dirn)
-            props=sorted(p for p,s in proppk.items() if s & pk) or [d]
+            pk={'go.amzn.com/'+os.path.dirname(x) for x in files}
+            props=sorted(p for p,s in proppk.items() if s & pk) or [name.split('/')[0]]
             r=sh('git','-C',WT,'apply',diff)
             if r.returncode!=0:
-                rows.append((name,'-','PATCH DOES NOT APPLY',r.stderr.strip()[:80])); continue
+                with lock: rows.append((name,'-','PATCH DOES NOT APPLY',r.stderr.strip()[:80]))
+                continue
             try:
                 for p in props:
                     c=sh('/verif/check',p,'--repo',WT,'--no-evidence',cwd='/verif')
-                    bad=[l.strip() for l in (c.stdout+c.stderr).splitlines() if l.startswith('VIOLATION') or l.startswith('UNDECIDED') or l.strip().startswith('obligation ') or l.startswith('  ')]
-                    rows.append((name,p,'exit=%d'%c.returncode,' ; '.join(bad)[:260] if c.returncode else ''))
+                    bad=[l.strip() for l in (c.stdout+c.stderr).splitlines() if l.startswith('VIOLATION') or l.startswith('UNDECIDED') or l.strip().startswith('obligation ')]
+                    with lock: rows.append((name,p,'exit=%d'%c.returncode,' ; '.join(bad)[:260] if c.returncode else ''))
             finally:
                 sh('git','-C',WT,'checkout','--','.'); sh('git','-C',WT,'clean','-fdq')
-finally:
-    sh('git','-C','/repo','worktree','remove','--force',WT)
-al=[r for r in rows if r[2]!='exit=0']
+    finally:
+        sh('git','-C','/repo','worktree','remove','--force',WT)
+ts=[threading.Thread(target=worker,args=(i,)) for i in range(J)]
+[t.start() for t in ts]; [t.join() for t in ts]
+rows.sort()
 for r in rows: print(' | '.join(r))
-print('%d runs, %d not exit 0'%(len(rows),len(al)))
+print('%d runs over %d changes, %d not exit 0'%(len(rows),len({r[0] for r in rows}),len([r for r in rows if r[2]!='exit=0'])))
